@@ -31,7 +31,7 @@ def base_opt(prop):
 
 
 C01_CFGS = [{}, {'options': {'output.format': False}}, {'options': {'output.selfClosingStyle': 'xhtml'}}, {'options': {'output.selfClosingStyle': 'xml', 'output.format': False}},
-            {'syntax': 'xml'}, {'context': {'name': 'ul'}}, {'context': {'name': 'em'}}, {'context': {'name': '\u017fpan'}}, {'context': {'name': '\u017felect'}}, {'context': {'name': '\ufb06rong'}}, {'options': {'output.inlineBreak': 0, 'output.indent': '  ', 'output.newline': '\r\n'}}]
+            {'syntax': 'xml'}, {'context': {'name': 'ul'}}, {'context': {'name': 'em'}}, {'options': {'inlineElements': ['em', 'span', 'x', 'b', 'q', 'a']}}, {'context': {'name': '\u017fpan'}}, {'context': {'name': '\u017felect'}}, {'context': {'name': '\ufb06rong'}}, {'options': {'output.inlineBreak': 0, 'output.indent': '  ', 'output.newline': '\r\n'}}]
 C02_CFGS = [{}, {}, {'syntax': 'jsx'}, {'syntax': 'svelte'}, {'maxRepeat': 1}, {'maxRepeat': 2}, {'maxRepeat': 3}, {'maxRepeat': 5}, {'maxRepeat': 9}, {'options': {'output.format': False}}]
 C03_CFGS = [{}, {'options': {'output.attributeQuotes': 'single'}}, {'options': {'output.reverseAttributes': True}}, {'options': {'output.compactBoolean': True}},
             {'options': {'output.attributeCase': 'upper'}}, {'syntax': 'jsx'}, {'syntax': 'vue'}, {'syntax': 'xml'}, {'options': {'output.selfClosingStyle': 'xhtml', 'output.compactBoolean': True, 'output.reverseAttributes': True}},
